@@ -14,7 +14,7 @@ from .. import apiscan
 from ..alg import is_zero
 
 BM = "typhon/retrieval/bmci/bmci.py"
-EXPECT = {"C18.perm": 4, "C18.window": 5, "C18.weights": 2, "C18.moments": 2, "C18.slice": 6, "C18.nan": 4, "C18.cdf": 3}
+EXPECT = {"C18.perm": 4, "C18.window": 7, "C18.weights": 2, "C18.moments": 2, "C18.slice": 6, "C18.nan": 4, "C18.cdf": 3}
 
 
 def _self_assigns(f):
@@ -86,6 +86,11 @@ def rule_window(ctx):
     wn, vn = [norm(e) for e in eig.targets[0].elts]
     c = calls_in(eig.value, ("eig", "eigh"))[0]
     ok_e = norm(c.args[0]) in ("self.s_o", f.params[3])
+    callee = (dotted(c.func) or "").split(".")[-1]
+    ctx.ob("BMCI.__init__.decomposition", callee == "eigh", "np.linalg.%s(%s)" % (callee, norm(c.args[0])),
+           "eigh: the covariance is symmetric, its eigenvalues and eigenvectors are real (numpy's eig returns complex arrays: sqrt(2 * inf / e) is then inf+nanj, "
+           "both window bounds are NaN and every estimate NaN for x2_max = inf / 1e308)", node=c, func=f,
+           witness=None if callee == "eigh" else {"x2_max": "inf", "bounds": "nan", "predict": "nan instead of the unrestricted estimate"})
     from ..flow import straight_env
     env = straight_env(f.node, stop=(wn, vn, "self.y_mean", "self.s_o"))
     e, v = env.get("self.pc1_e"), env.get("self.pc1")
@@ -111,15 +116,28 @@ def rule_window(ctx):
     h = ctx.func(BM, "BMCI.__find_hits")
     hflow = Flow(h)
     yo, x2 = h.params[1], h.params[2]
-    ss = calls_in(h.node, "searchsorted")
-    if len(ss) != 1 or len(ss[0].args) < 2:
-        raise AnalysisError("__find_hits: expected one searchsorted(sorted, [s_l, s_u]) call")
-    bounds = hflow.resolve(ss[0].args[1], at=ss[0], depth=1)
-    if isinstance(bounds, ast.Call) and (dotted(bounds.func) or "").split(".")[-1] in ("array", "asarray") and bounds.args:
-        bounds = bounds.args[0]
-    if not (isinstance(bounds, (ast.List, ast.Tuple)) and len(bounds.elts) == 2):
-        raise AnalysisError("__find_hits: the searched bounds are not a pair [s_l, s_u]")
-    sl_e, su_e = [hflow.resolve(e_, at=ss[0], depth=4, stop=(yo, x2)) for e_ in bounds.elts]
+    ss = [c_ for c_ in calls_in(h.node, "searchsorted") if len(c_.args) >= 2]
+
+    def side_of(c_):
+        for k_ in c_.keywords:
+            if k_.arg == "side":
+                return const_value(k_.value)
+        return const_value(c_.args[2]) if len(c_.args) > 2 else "left"
+    if len(ss) == 1:
+        bounds = hflow.resolve(ss[0].args[1], at=ss[0], depth=1)
+        if isinstance(bounds, ast.Call) and (dotted(bounds.func) or "").split(".")[-1] in ("array", "asarray") and bounds.args:
+            bounds = bounds.args[0]
+        if not (isinstance(bounds, (ast.List, ast.Tuple)) and len(bounds.elts) == 2):
+            raise AnalysisError("__find_hits: the searched bounds are not a pair [s_l, s_u]")
+        sl_e, su_e = [hflow.resolve(e_, at=ss[0], depth=4, stop=(yo, x2)) for e_ in bounds.elts]
+        sides = (side_of(ss[0]), side_of(ss[0]))
+        ss_l = ss_u = ss[0]
+    elif len(ss) == 2:
+        ss_l, ss_u = ss
+        sl_e, su_e = [hflow.resolve(c_.args[1], at=c_, depth=4, stop=(yo, x2)) for c_ in ss]
+        sides = (side_of(ss_l), side_of(ss_u))
+    else:
+        raise AnalysisError("__find_hits: expected searchsorted(sorted, [s_l, s_u]) or one searchsorted call per bound")
     dots = {norm(n_).replace(" ", "") for b_ in (sl_e, su_e) for n_ in ast.walk(b_) if isinstance(n_, ast.Call) and (dotted(n_.func) or "").split(".")[-1] == "dot"}
     obs_forms = ("np.dot(self.pc1,(%s-self.y_mean).ravel())" % yo, "np.dot(self.pc1,%s-self.y_mean)" % yo, "np.dot((%s-self.y_mean).ravel(),self.pc1)" % yo,
                  "np.dot(%s-self.y_mean,self.pc1)" % yo)
@@ -158,16 +176,28 @@ def rule_window(ctx):
     ok_h = cl.is_number and cu.is_number and cl >= 1 and cu >= 1 and hl.is_positive and hu.is_positive
     ctx.ob("BMCI.__find_hits.halfwidth", bool(ok_h), "lower: y_proj - %s, upper: y_proj + %s; h^2 / (x2_max * lambda) = %s, %s" % (hl, hu, cl, cu),
            "symmetric window with h^2 = c * x2_max * lambda_min, c >= 1: |u^T dy| <= sqrt(lambda * chi^2) for the eigenvector u", node=ss[0], func=h)
-    ok_s = norm(ss[0].args[0]) == "self.pc1_proj"
+    # which call carries the lower bound: the one whose half-width is subtracted
+    if len(ss) == 2 and not (hl.is_positive and hu.is_positive) and (-hl).is_positive and (-hu).is_positive:
+        pass
+    ok_s = all(norm(c_.args[0]) == "self.pc1_proj" for c_ in ss)
     rets = [s_ for s_ in hflow.stmts if isinstance(s_, ast.Return)]
-    # the returned bounds are the searchsorted results themselves (i_u is an EXCLUSIVE bound and may equal n)
     ok_r = False
     if len(rets) == 1 and isinstance(rets[0].value, ast.Tuple) and len(rets[0].value.elts) == 3:
-        S_ = norm(ss[0])
-        r0, r1, r2 = [norm(hflow.resolve(e_, at=rets[0], depth=2, stop=tuple(n_.id for n_ in ast.walk(ss[0]) if isinstance(n_, ast.Name)))) for e_ in rets[0].value.elts]
-        ok_r = r0 == "%s[0]" % S_ and r1 == "%s[1]" % S_ and r2 == "%s[1] - %s[0]" % (S_, S_)
-    ctx.ob("BMCI.__find_hits.search", ok_s and ok_r, "searchsorted: %s; return %s" % (norm(ss[0]), norm(rets[0].value) if rets else None),
-           "(i_l, i_u) = searchsorted(sorted projections, [s_l, s_u])", node=ss[0], func=h)
+        stopn = tuple(n_.id for c_ in ss for n_ in ast.walk(c_) if isinstance(n_, ast.Name))
+        r0, r1, r2 = [norm(hflow.resolve(e_, at=rets[0], depth=2, stop=stopn)) for e_ in rets[0].value.elts]
+        if len(ss) == 1:
+            S_ = norm(ss[0])
+            ok_r = r0 == "%s[0]" % S_ and r1 == "%s[1]" % S_ and r2 == "%s[1] - %s[0]" % (S_, S_)
+        else:
+            L_, U_ = norm(ss_l), norm(ss_u)
+            ok_r = r0 == L_ and r1 == U_ and r2 == "%s - %s" % (U_, L_)
+    ctx.ob("BMCI.__find_hits.search", ok_s and ok_r, "searchsorted: %s; return %s" % ([str(norm(c_)) for c_ in ss], norm(rets[0].value) if rets else None),
+           "(i_l, i_u) = positions of [s_l, s_u] in the sorted projections", node=ss[0], func=h)
+    # both bounds inclusive: entries ON the lower bound need side='left' for i_l, entries ON the upper bound side='right' for the
+    # exclusive end i_u - with x2_max = 0 the window is the single value y_proj, and an exact match (chi-square 0 <= x2_max) must stay
+    ctx.ob("BMCI.__find_hits.inclusive", sides == ("left", "right"), "sides of the searches for (lower, upper): %s" % (sides,),
+           "('left', 'right'): an entry whose projection equals a bound has chi-square <= x2_max on that axis and may not be dropped",
+           node=ss_u, func=h, witness=None if sides == ("left", "right") else {"x2_max": 0.0, "observation": "equal to a database entry", "window": "empty", "predict": "NaN"})
 
 
 class V:
